@@ -58,6 +58,7 @@ type transUnit struct {
 	Ifaces      map[string]ifaceSpec // "mapping.IndexMapping" -> class
 	ExternTypes map[string]string    // "stat.SummaryStatistics" -> Lean type
 	ExternFuncs map[string]externFn  // "stat.SummaryStatistics.Add" / "stat.NewSummaryStatistics" -> Lean function
+	ExternVars  map[string]string    // "encoding.BinEncodingIndexDeltas" -> Lean constant (variables of other translated packages)
 	Imports     []string
 }
 
@@ -70,8 +71,10 @@ type ifaceSpec struct {
 }
 
 type externFn struct {
-	Lean     string
-	Mutating bool
+	Lean      string
+	Mutating  bool  // a method that changes its receiver
+	Res       bool  // fallible (takes fuel, returns Res)
+	MutParams []int // plain function: indexes of the parameters it writes through (returned first)
 }
 
 var transUnits = []transUnit{
@@ -190,7 +193,29 @@ var denseUnit = transUnit{Dir: "ddsketch/store", File: "CodeDense", NS: "DDS.Gen
 		"CollapsingHighestDenseStore.MergeWith", "CollapsingHighestDenseStore.Copy", "CollapsingHighestDenseStore.Clear",
 	}}
 
-func init() { transUnits = append(transUnits, sketchUnit, datasetUnit, denseUnit) }
+// the generic bin decoder of the stores (`store.DecodeAndMergeWith`, used by the dense, collapsing and sparse
+// stores, and by the paginated store for one of the three layouts), over the regenerated codecs and any store
+var storeDecodeUnit = transUnit{Dir: "ddsketch/store", File: "CodeStoreDecode", NS: "DDS.Gen.StoreDecode", Mode: "f64",
+	TypeParams: "{S : Type} [StoreI S]",
+	Imports:    []string{"DDS.Model.GoIface", "DDS.Generated.CodeEncoding"},
+	Ifaces: map[string]ifaceSpec{
+		"store.Store": {TyVar: "S", Class: "StoreI", Mutating: map[string]bool{"Add": true, "AddWithCount": true, "Clear": true,
+			"MergeWith": true, "Reweight": true}},
+	},
+	ExternTypes: map[string]string{"encoding.SubFlag": "DDS.Gen.Encoding.SubFlag", "encoding.Flag": "DDS.Gen.Encoding.Flag",
+		"encoding.FlagType": "DDS.Gen.Encoding.FlagType"},
+	ExternVars: map[string]string{
+		"encoding.BinEncodingIndexDeltasAndCounts": "DDS.Gen.Encoding.BinEncodingIndexDeltasAndCounts",
+		"encoding.BinEncodingIndexDeltas":          "DDS.Gen.Encoding.BinEncodingIndexDeltas",
+		"encoding.BinEncodingContiguousCounts":     "DDS.Gen.Encoding.BinEncodingContiguousCounts"},
+	ExternFuncs: map[string]externFn{
+		"encoding.DecodeUvarint64":  {Lean: "DDS.Gen.Encoding.DecodeUvarint64", Res: true, MutParams: []int{0}},
+		"encoding.DecodeVarint64":   {Lean: "DDS.Gen.Encoding.DecodeVarint64", Res: true, MutParams: []int{0}},
+		"encoding.DecodeVarfloat64": {Lean: "DDS.Gen.Encoding.DecodeVarfloat64", Res: true, MutParams: []int{0}},
+	},
+	Funcs: []string{"DecodeAndMergeWith"}}
+
+func init() { transUnits = append(transUnits, sketchUnit, datasetUnit, denseUnit, storeDecodeUnit) }
 
 type trErr struct{ msg string }
 
@@ -309,6 +334,11 @@ func (t *tr) leanType(ty types.Type) string {
 			}
 			if lt, ok := t.unit.ExternTypes[key]; ok {
 				return lt
+			}
+		}
+		if _, isI := u.Underlying().(*types.Interface); isI && u.Obj().Pkg() == t.pkg {
+			if is, ok := t.unit.Ifaces[t.pkg.Name()+"."+u.Obj().Name()]; ok {
+				return is.TyVar
 			}
 		}
 		if _, ok := u.Underlying().(*types.Struct); ok && u.Obj().Pkg() == t.pkg {
@@ -652,6 +682,9 @@ func (t *tr) expr(e ast.Expr, c *ectx) string {
 	case *ast.SelectorExpr:
 		if id, ok := x.X.(*ast.Ident); ok {
 			if pn, ok := t.info.Uses[id].(*types.PkgName); ok {
+				if lv, ok := t.unit.ExternVars[pn.Imported().Name()+"."+x.Sel.Name]; ok {
+					return lv
+				}
 				switch pn.Imported().Path() + "." + x.Sel.Name {
 				case "io.EOF":
 					return "GoErr.eof"
@@ -896,6 +929,12 @@ func (t *tr) binary(x *ast.BinaryExpr, c *ectx) string {
 			return "(" + a + " != " + b + ")"
 		}
 	default:
+		if _, isStruct := lt.Underlying().(*types.Struct); isStruct && (x.Op == token.EQL || x.Op == token.NEQ) {
+			if x.Op == token.EQL {
+				return "(" + a + " == " + b + ")"
+			}
+			return "(" + a + " != " + b + ")"
+		}
 		if n, ok := lt.(*types.Named); ok && n.Obj().Name() == "error" {
 			switch x.Op {
 			case token.EQL:
@@ -1224,10 +1263,24 @@ func (t *tr) registerExterns() {
 				obj = t.info.Uses[fn.Sel]
 			}
 			fo, ok := obj.(*types.Func)
-			if !ok || fo.Pkg() == nil || fo.Pkg() == t.pkg || t.byObj[obj] != nil {
+			if !ok || fo.Pkg() == nil || t.byObj[obj] != nil {
 				return true
 			}
 			sig := fo.Type().(*types.Signature)
+			if fo.Pkg() == t.pkg {
+				// only methods of an interface of this package that the unit declares as a class
+				isIface := false
+				if sig.Recv() != nil {
+					if nm, ok := sig.Recv().Type().(*types.Named); ok {
+						if _, ok := t.unit.Ifaces[t.pkg.Name()+"."+nm.Obj().Name()]; ok {
+							isIface = true
+						}
+					}
+				}
+				if !isIface {
+					return true
+				}
+			}
 			if sig.Recv() != nil {
 				rt := sig.Recv().Type()
 				if p, ok := rt.(*types.Pointer); ok {
@@ -1248,7 +1301,7 @@ func (t *tr) registerExterns() {
 					t.byObj[obj] = fi
 				} else if ef, ok := t.unit.ExternFuncs[key+"."+fo.Name()]; ok {
 					fi := &funcInfo{key: key + "." + fo.Name(), lean: ef.Lean, sig: sig, recv: sig.Recv(),
-						mutSet: map[*types.Var]bool{}, extern: true}
+						mutSet: map[*types.Var]bool{}, extern: true, res: ef.Res}
 					if ef.Mutating {
 						fi.mutSet[sig.Recv()] = true
 						fi.mutated = []int{0}
@@ -1256,7 +1309,12 @@ func (t *tr) registerExterns() {
 					t.byObj[obj] = fi
 				}
 			} else if ef, ok := t.unit.ExternFuncs[fo.Pkg().Name()+"."+fo.Name()]; ok {
-				t.byObj[obj] = &funcInfo{key: fo.Pkg().Name() + "." + fo.Name(), lean: ef.Lean, sig: sig, mutSet: map[*types.Var]bool{}, extern: true}
+				fi := &funcInfo{key: fo.Pkg().Name() + "." + fo.Name(), lean: ef.Lean, sig: sig, mutSet: map[*types.Var]bool{}, extern: true, res: ef.Res}
+				for _, i := range ef.MutParams {
+					fi.mutSet[sig.Params().At(i)] = true
+					fi.mutated = append(fi.mutated, i)
+				}
+				t.byObj[obj] = fi
 			}
 			return true
 		})
@@ -2004,6 +2062,8 @@ func (t *tr) stmt(s ast.Stmt, sc *sctx, kf func() string) string {
 		th := t.stmts(x.Body.List, sc, k)
 		el := t.stmts(elseList, sc, k)
 		return t.wrapHoists(*hs, "if "+cond+" then\n"+th+"\nelse\n"+el, sc)
+	case *ast.SwitchStmt:
+		return t.stmt(t.desugarSwitch(x), sc, kf)
 	case *ast.ForStmt:
 		return t.forStmt(x, sc, kf())
 	case *ast.RangeStmt:
@@ -2011,6 +2071,69 @@ func (t *tr) stmt(s ast.Stmt, sc *sctx, kf func() string) string {
 	}
 	t.fail(s, "unsupported statement %T", s)
 	return ""
+}
+
+// `switch tag { case a, b: …; default: … }` as a chain of `if tag == a || tag == b {…} else if … else {…}`.
+// The tag must be a variable, a field or a pure method call on one (evaluated once per comparison; flags and
+// sub-flags are values); `break` and `fallthrough` inside a switch are not translated.
+func (t *tr) desugarSwitch(x *ast.SwitchStmt) ast.Stmt {
+	if x.Init != nil {
+		t.fail(x, "switch with an init statement")
+	}
+	ast.Inspect(x.Body, func(m ast.Node) bool {
+		switch b := m.(type) {
+		case *ast.ForStmt, *ast.RangeStmt, *ast.FuncLit:
+			return false
+		case *ast.BranchStmt:
+			if b.Tok == token.BREAK || b.Tok == token.FALLTHROUGH {
+				t.fail(b, "break / fallthrough inside a switch")
+			}
+		}
+		return true
+	})
+	boolT := types.Typ[types.Bool]
+	var clauses []*ast.CaseClause
+	var def *ast.CaseClause
+	for _, st := range x.Body.List {
+		cc := st.(*ast.CaseClause)
+		if cc.List == nil {
+			def = cc
+		} else {
+			clauses = append(clauses, cc)
+		}
+	}
+	var elseStmt ast.Stmt
+	if def != nil {
+		elseStmt = &ast.BlockStmt{List: def.Body}
+	}
+	for i := len(clauses) - 1; i >= 0; i-- {
+		cc := clauses[i]
+		var cond ast.Expr
+		for _, e := range cc.List {
+			var c ast.Expr = e
+			if x.Tag != nil {
+				be := &ast.BinaryExpr{X: x.Tag, Op: token.EQL, Y: e}
+				t.info.Types[be] = types.TypeAndValue{Type: boolT}
+				c = be
+			}
+			if cond == nil {
+				cond = c
+			} else {
+				or := &ast.BinaryExpr{X: cond, Op: token.LOR, Y: c}
+				t.info.Types[or] = types.TypeAndValue{Type: boolT}
+				cond = or
+			}
+		}
+		is := &ast.IfStmt{Cond: cond, Body: &ast.BlockStmt{List: cc.Body}}
+		if elseStmt != nil {
+			is.Else = elseStmt
+		}
+		elseStmt = is
+	}
+	if elseStmt == nil {
+		return &ast.BlockStmt{}
+	}
+	return elseStmt
 }
 
 func (t *tr) ret(v string, sc *sctx) string {
@@ -2363,6 +2486,12 @@ func (t *tr) analyseMutation() {
 			for i, p := range ps {
 				if _, ok := p.Type().(*types.Pointer); ok {
 					idx[p] = i
+				} else if nm, ok := p.Type().(*types.Named); ok {
+					if _, isI := nm.Underlying().(*types.Interface); isI && nm.Obj().Pkg() != nil {
+						if _, ok := t.unit.Ifaces[nm.Obj().Pkg().Name()+"."+nm.Obj().Name()]; ok {
+							idx[p] = i // an interface value holding a pointer: its mutating methods change it
+						}
+					}
 				}
 			}
 			mark := func(e ast.Expr) {
